@@ -468,6 +468,24 @@ def check_C03(ctx):
             for env in ({}, {"VE_E": "1"}, {"VE_L": "true"}, {"VE_E": "1", "VE_L": "true"}):
                 root = gen.mkcmd("app", decls=gdecl, spec=sp, policy=0)
                 run_cases.append({"op": "run", "env": env, "version": None, "root": root, "argv": argv})
+    # (3) many options that the environment satisfies without consuming anything: the search must not
+    # revisit the states it has already tried (2^k or k! paths otherwise)
+    letters = "abcdefgijklmnopqrstuvwxyz"
+    n_many = 0
+    for k in (8, 12, 16):
+        kd = [gen.mkopt("bool", ch, env="VM_" + ch.upper(), **{"def": ["false"]}) for ch in letters[:k]] + [gen.mkarg("strings", "X")]
+        flags = ["-" + ch for ch in letters[:k]]
+        shapes = ["[" + " | ".join(flags) + "]... X", "(" + " | ".join(flags) + ")... X", "[OPTIONS]... X"]
+        if k <= 12:     # (the model's list-based automaton construction is slow beyond that on these shapes)
+            shapes += [" ".join("[%s]" % f for f in flags) + " X", " ".join("[%s]..." % f for f in flags) + " X",
+                       "[" + " ".join("[%s]" % f for f in flags) + "]... X"]
+        for sp in shapes:
+            for envset in (letters[:k], letters[:k:2]):
+                env = {"VM_" + ch.upper(): "true" for ch in envset}
+                for argv in ([], ["x"], ["-" + letters[0], "-Z"], ["x", "-Z"], ["--", "x"], ["-" + letters[:k]]):
+                    root = gen.mkcmd("app", decls=kd, spec=sp, policy=0)
+                    run_cases.append({"op": "run", "env": env, "version": None, "root": root, "argv": argv})
+                    n_many += 1
     res = correspond(ctx, run_cases, ["outcome"], "specs x command lines x env subsets", timeout_ms=10000)
     bad = 0
     for c in run_cases:
@@ -490,7 +508,8 @@ def check_C03(ctx):
         if b["outcome"] == ("fuel",):
             ctx.violation("model-fuel", "the model runs out of fuel on spec %r argv %r (its termination theorem "
                           "would be false here)" % (c["root"]["spec"], c["argv"]), case=c)
-    ctx.stream("specs x command lines x env subsets", 0, arbitrary_strings=n_strings, hostile_specs=len(hostile))
+    ctx.stream("specs x command lines x env subsets", 0, arbitrary_strings=n_strings, hostile_specs=len(hostile),
+               many_env_backed_options=n_many)
     ctx.sample({"spec": "[[X]...]...", "argv": [], "env": {}})
     ctx.sample({"spec": "[-e...] X", "argv": ["x"], "env": {"VE_E": "1"}})
     return ("every concatenation of up to %d items of a 25-item spec alphabet and random byte strings as specs; "
